@@ -137,6 +137,21 @@ func (ind Ind) GenConfig(t *rapid.T, maxSmall int) Config {
 	return c
 }
 
+// GenConfigAny is GenConfig, except that in a quarter of the draws the documented ordering
+// constraints (fast <= slow ...) are NOT imposed: for the properties that quantify over ALL
+// configurations (termination, no look-ahead, reuse, unit independence) rather than over the
+// admissible ones.
+func (ind Ind) GenConfigAny(t *rapid.T, maxSmall int) Config {
+	if ind.Fix == nil || rapid.IntRange(0, 3).Draw(t, "unordered") != 0 {
+		return ind.GenConfig(t, maxSmall)
+	}
+	fix := ind.Fix
+	ind.Fix = nil
+	c := ind.GenConfig(t, maxSmall)
+	ind.Fix = fix
+	return c
+}
+
 // DefaultConfig is the configuration of the plain constructor.
 func (ind Ind) DefaultConfig() Config {
 	c := Config{}
